@@ -127,6 +127,7 @@ def body(ctx):
                 k2 = [consumer_msg_kind(prog, m_) for m_ in queue_msgs(ch)]
                 nt2 = sum(1 for k in k2 if k in TERMINALS)
                 conds.append(z3.BoolVal(nt2 <= 1 and all(k == 'Delivery' for k in k2[:-1]) and ((nt2 == 1) == (ch.senders == 0))))
+        conds.append(earlier_kept(w))
         claim = z3.And(*conds)
         m = ctx.decide(f"c11.history#{hi}", s.pc, claim,
                        group='consumer queue = deliveries addressed to its tag (in order, fields intact) then exactly one terminal naming the true cause, then disconnected; server cancel answered iff !nowait',
